@@ -831,3 +831,79 @@ def c13_near_duplicates(tier, rng):
             "bound": "delta in {1,2,4} x end differences 0..delta x read exon positions within delta of either exon (%d placements; %d of them inside the "
                      "listed known-finding class 'closest annotated feature wins', not counted as obligations)" % (obl, in_class),
             "samples": [{"known": [(600, 700), (602, 700)], "read_exon": (602, 700), "delta": 2}]}
+
+
+# ---- split-exon profiles: a known split exon is present iff a read block matches it -------------------------------------------------------------------
+def _interval_lists(universe, gap=1):
+    """all ascending lists of pairwise disjoint intervals over 1..universe with at least `gap` free positions between neighbours (incl. the empty list)"""
+    out = [[]]
+
+    def extend(prefix, first_free):
+        for a in range(first_free, universe + 1):
+            for b in range(a, universe + 1):
+                cur = prefix + [(a, b)]
+                out.append(cur)
+                extend(cur, b + 1 + gap)
+    extend([], 1)
+    return out
+
+
+def _split_profile_problems(known, read, min_overlap):
+    from functools import partial
+    lrp = native.repo_import("src/long_read_profiles.py")
+    com = native.repo_import("src/common.py")
+    cmp_ = partial(com.overlaps_at_least_when_overlap, delta=min_overlap)
+    p = lrp.NonOverlappingFeaturesProfileConstructor(known, comparator=cmp_, delta=0).construct_profile(read)
+    problems = []
+    covered = set()
+    for r in read:
+        covered.update(range(r[0], r[1] + 1))
+    for i, g in enumerate(known):
+        present = any(cmp_(r, g) for r in read)
+        v = p.gene_profile[i]
+        if present != (v == 1):
+            problems.append("known exon %s is %smatched by a read block but marked %d" % (g, "" if present else "not ", v))
+        elif not present:
+            if (g[1] < read[0][0] or g[0] > read[-1][1]) and v != 0:
+                problems.append("known exon %s lies outside the read but is marked %d" % (g, v))
+            if read[0][0] < g[0] and g[1] < read[-1][1] and not (covered & set(range(g[0], g[1] + 1))) and v != -1:
+                problems.append("known exon %s is spanned by the read without a shared base but is marked %d" % (g, v))
+    for j, r in enumerate(read):
+        present = any(cmp_(r, g) for g in known)
+        if present != (p.read_profile[j] == 1):
+            problems.append("read block %s %s a known exon but is marked %d" % (r, "matches" if present else "matches no", p.read_profile[j]))
+    return problems
+
+
+def replay_split_profile(d):
+    i = d["inputs"]
+    p = _split_profile_problems([tuple(x) for x in i["known"]], [tuple(x) for x in i["read"]], i["min_overlap"])
+    return (not p), "known %s read %s min_overlap %d: %s" % (i["known"], i["read"], i["min_overlap"], p or "as the sentence says")
+
+
+@finite("C19.split_profile_semantics", ["C19", "C13"], note="the real NonOverlappingFeaturesProfileConstructor.construct_profile (as CombinedProfileConstructor wires it: "
+        "comparator overlaps_at_least_when_overlap) on every list of disjoint (possibly adjoining) known exons x every list of gapped read blocks over 1..6 (thorough: 1..7) x minimal overlap in {1,2,3}: "
+        "a known split exon is marked present iff a read block matches it, a read block iff it matches a known exon; an unmatched exon outside the "
+        "read is 0, one spanned by the read without a shared base is -1")
+def c19_split_profile(tier, rng):
+    u = 6 if tier == "quick" else 7
+    lists = _interval_lists(u)
+    obl = dis = 0
+    viol = []
+    for known in _interval_lists(u, gap=0):      # split exons may adjoin
+        if not known:
+            continue
+        for read in lists:
+            if not read:
+                continue
+            for mo in (1, 2, 3):
+                obl += 1
+                p = _split_profile_problems(known, read, mo)
+                if not p:
+                    dis += 1
+                elif len(viol) < 3:
+                    viol.append({"obligation": "C19.split_profile_semantics.%s.%s.%d" % ("_".join("%d-%d" % x for x in known), "_".join("%d-%d" % x for x in read), mo),
+                                 "inputs": {"known": known, "read": read, "min_overlap": mo}, "observed": p[:3],
+                                 "required": "present iff matched", "replay_call": "contracts.c_profiles:replay_split_profile"})
+    return {"obligations": obl, "discharged": dis, "violations": viol, "cases": obl, "exhaustive": True,
+            "bound": "all pairs of disjoint interval lists over 1..%d x minimal overlap 1..3" % u, "samples": [{"known": [(1, 3), (5, 5)], "read": [(2, 2), (4, 5)], "min_overlap": 2}]}
